@@ -335,6 +335,13 @@ def _m_store(env, cont, key, src):
     env[cont][key] = copy.deepcopy(src(env))
 
 
+def _m_iadd(cont, key, v):
+    cur = cont[key]
+    if not isinstance(cur, list):
+        raise TypeError('not a list')       # number += list: an error in any reading
+    cur += v                                  # in place: every other holder of the list sees the new items
+
+
 NESTED_OPS = [
     # (program, model action on env {c, d, s, g})
     ('c[0] = s', lambda e: _m_store(e, 'c', 0, lambda e: e['s'])),
@@ -353,6 +360,11 @@ NESTED_OPS = [
     ('c[0][0][0] = 8', lambda e: e['c'][0][0].__setitem__(0, 8)),
     ('push(d["k"], 6)', lambda e: e['d']['k'].append(6)),
     ('push(c[0], 3)', lambda e: e['c'][0].append(3)),
+    # push / insert store the object itself: one list reachable through two paths, extended in place by a compound write
+    ('push(c, s[0])', lambda e: e['c'].append(e['s'][0])),
+    ('c[-1] += [2]', lambda e: _m_iadd(e['c'], -1, [2])),
+    ('s[0] += [5]', lambda e: _m_iadd(e['s'], 0, [5])),
+    ('d["k"] += [3]', lambda e: _m_iadd(e['d'], 'k', [3])),
 ]
 
 
